@@ -84,7 +84,39 @@ def targets():
         f = F(A).FKF(gyr=_two_rows(H, G), acc=_two_rows(AC, acc1), mag=_two_rows(N0, mag1))
         return [f.Q[1], f.Pk]
 
+    def nrm0(x):                                     # the test `np.linalg.norm(x) == 0` the filters make, on symbols
+        from pysym import symnp
+        return symnp.linalg.norm(x) == 0
+
+    def npos(x):
+        from pysym import symnp
+        return symnp.linalg.norm(x) > 0
+
+    # "null magnetometer => the IMU step": the MARG call, and the specification it is compared with (same symbols):
+    #   q^ = Quaternion(q);  gyr null -> q^ ;  otherwise updateIMU(q^, gyr, acc, dt)
+    def mad_spec(A, v):
+        f = mad(A); qq = A.Quaternion(q(v))
+        r = qq.to_array() if nrm0(g(v)) else f.updateIMU(qq, g(v), a(v), dt=v.dt)
+        return go(f, r)
+
+    #   Mahony: the same, except that with a null accelerometer too updateMARG never reaches the magnetometer test and
+    #   propagates q^ itself (updateIMU(q, ...) does exactly that on q)
+    def mah_spec(A, v):
+        f = mah(A, v); qq = A.Quaternion(q(v))
+        if nrm0(g(v)):
+            r = qq.to_array()
+        elif npos(a(v)):
+            r = f.updateIMU(qq, g(v), a(v), dt=v.dt)
+        else:
+            r = f.updateIMU(q(v), g(v), a(v), dt=v.dt)
+        return mo(f, r)
+
     return [
+        mk('mad_m0', Q + G + AC + DT, lambda A, v: (lambda f: go(f, f.updateMARG(q(v), g(v), a(v), _z(), dt=v.dt)))(mad(A)),
+           'updateMARG with a null magnetometer, acc symbolic'),
+        mk('mad_m0_spec', Q + G + AC + DT, mad_spec, 'q^ if gyr is null else updateIMU(q^, gyr, acc, dt), q^ = Quaternion(q)'),
+        mk('mah_m0', Q + G + AC + BB + DT, lambda A, v: (lambda f: mo(f, f.updateMARG(q(v), g(v), a(v), _z(), dt=v.dt)))(mah(A, v))),
+        mk('mah_m0_spec', Q + G + AC + BB + DT, mah_spec),
         # Madgwick
         mk('mad_imu_a0', Q + G + DT, lambda A, v: (lambda f: go(f, f.updateIMU(q(v), g(v), _z(), dt=v.dt)))(mad(A))),
         mk('mad_marg_a0', Q + G + M + DT, lambda A, v: (lambda f: go(f, f.updateMARG(q(v), g(v), _z(), m(v), dt=v.dt)))(mad(A))),
@@ -177,7 +209,24 @@ def _impl_table():
     def fkf(c, acc1, mag1):
         o = F.FKF(gyr=np.array([_v(c, H), _v(c, G)]), acc=np.array([_v(c, AC), acc1]), mag=np.array([_v(c, N0), mag1]))
         return [o.Q[1], o.Pk]
+    def mad_spec(c):
+        f = mad(); qq = ahrs.Quaternion(q(c))
+        return go(f, qq.to_array() if np.linalg.norm(g(c)) == 0 else f.updateIMU(qq, g(c), a(c), dt=c['dt']))
+
+    def mah_spec(c):
+        f = mah(c); qq = ahrs.Quaternion(q(c))
+        if np.linalg.norm(g(c)) == 0:
+            r = qq.to_array()
+        elif np.linalg.norm(a(c)) > 0:
+            r = f.updateIMU(qq, g(c), a(c), dt=c['dt'])
+        else:
+            r = f.updateIMU(q(c), g(c), a(c), dt=c['dt'])
+        return mo(f, r)
     return {
+        'mad_m0': lambda c: (lambda f: go(f, f.updateMARG(q(c), g(c), a(c), z(), dt=c['dt'])))(mad()),
+        'mad_m0_spec': mad_spec,
+        'mah_m0': lambda c: (lambda f: mo(f, f.updateMARG(q(c), g(c), a(c), z(), dt=c['dt'])))(mah(c)),
+        'mah_m0_spec': mah_spec,
         'mad_imu_a0': lambda c: (lambda f: go(f, f.updateIMU(q(c), g(c), z(), dt=c['dt'])))(mad()),
         'mad_marg_a0': lambda c: (lambda f: go(f, f.updateMARG(q(c), g(c), z(), m(c), dt=c['dt'])))(mad()),
         'mad_marg_am0': lambda c: (lambda f: go(f, f.updateMARG(q(c), g(c), z(), z(), dt=c['dt'])))(mad()),
